@@ -365,3 +365,66 @@ def judge(sc: Dict[str, Any], res: Dict[str, Any]):
             viol.append({"clause": "c:too-many-kernel-passes-after-notification", "passes_after_T": n_after,
                          "retries": res["retries"]})
     return viol, cnt
+
+
+def judge_controller(nodes: Dict[str, Dict[str, Any]], result: Dict[str, Any]):
+    """Clauses (a)(b)(c) for every repeating observer of a complete controller run (real notification path:
+    ComponentState.stageIn subscription -> notify_all_producers_finished)."""
+    viol: List[Dict[str, Any]] = []
+    cnt = {"ctl_observers": 0, "ctl_clause_a_checked": 0, "ctl_clause_b_checked": 0, "ctl_clause_c_checked": 0,
+           "ctl_skipped_external_kill": 0, "ctl_skipped_never_launched": 0, "ctl_never_launched_but_could_consume": 0, "ctl_skipped_no_notification": 0}
+    evs = result["events"]
+    if result.get("watchdog_fired"):
+        return viol, cnt
+    for obs, nd in nodes.items():
+        if not nd.get("repeat"):
+            continue
+        prods = nd["preds"]
+        same = [p for p in prods if nodes[p]["stage"] == nd["stage"]]
+        cnt["ctl_observers"] += 1
+        launches = [e for e in evs if e["kind"] == "launch" and e["comp"] == obs]
+        exits = {e["exec"]: e for e in evs if e["kind"] == "exit" and e["comp"] == obs}
+        passes = [e for e in evs if e["kind"] == "kernel.enter" and e["comp"] == obs]
+        # (a) same-stage producers must have been launched (their working dir then holds out.stdout)
+        for l in launches:
+            cnt["ctl_clause_a_checked"] += 1
+            for p in same:
+                # number of files in the producer's working directory, sampled at the launch instant
+                if l.get("pred_files", {}).get(p) == 0:
+                    viol.append({"clause": "a:launched-before-any-producer-output", "observer": obs, "producer": p,
+                                 "launch_seq": l["seq"]})
+        T = next((e["seq"] for e in evs if e["kind"] == "notify_all_producers_finished" and e["comp"] == obs), None)
+        if T is None:
+            cnt["ctl_skipped_no_notification"] += 1
+            continue
+        kills = [e for e in evs if e["kind"] == "engine.kill" and e["comp"] == obs and e.get("alive")]
+        if not kills or kills[0].get("tag") == "external":
+            cnt["ctl_skipped_external_kill"] += 1
+            continue
+        if not launches and not result.get("consume", {}).get(obs):
+            cnt["ctl_skipped_never_launched"] += 1      # never able to consume
+            continue
+        L = max([e["seq"] for e in evs if e["kind"] == "output" and e["comp"] in prods], default=None)
+        if L is not None:
+            cnt["ctl_clause_b_checked"] += 1
+            if not launches:
+                cnt["ctl_never_launched_but_could_consume"] += 1
+            if not any(l["seq"] > L for l in launches):
+                viol.append({"clause": "b:stopped-without-execution-after-last-output", "observer": obs,
+                             "producer_stages": sorted({nodes[p]["stage"] for p in prods}), "observer_stage": nd["stage"],
+                             "last_output_seq": L, "T": T, "launch_seqs": [l["seq"] for l in launches]})
+        cnt["ctl_clause_c_checked"] += 1
+
+        def pass_seq(l):
+            return max([p["seq"] for p in passes if p["seq"] < l["seq"]], default=0)
+        after = [l for l in launches if pass_seq(l) > T and (L is None or pass_seq(l) > L)]
+        first_ok = next((l for l in after if exits.get(l["exec"], {}).get("reason") == "Success"), None)
+        if first_ok is not None:
+            later = [l for l in launches if l["seq"] > first_ok["seq"]]
+            if later:
+                viol.append({"clause": "c:executed-again-after-successful-final-execution", "observer": obs,
+                             "first_ok": first_ok["seq"], "later": [l["seq"] for l in later]})
+        n_after = sum(1 for p in passes if p["seq"] > T)
+        if n_after > 3 + 3:
+            viol.append({"clause": "c:too-many-kernel-passes-after-notification", "observer": obs, "passes_after_T": n_after})
+    return viol, cnt
